@@ -186,3 +186,80 @@ Proof.
     + vm_compute. discriminate.
   - eexists _, _. split; vm_compute; reflexivity.
 Qed.
+
+(* ---- histories: margin transactions between the blocks. What C13_begin_block asks of the state at the start of a block is
+   kept by MsgOpen, MsgClose and MsgAdminClose too (and by a refused transaction, which only pays its fee), together with
+   the sums invariant and the module account's gap (C01): over any sequence of delivered margin transactions and blocks the
+   premise is one on the first state. Asked along the run: nobody signs as the module account, and when a position is
+   opened the id the counter hands out is free (ids come from the counter; Check/Margin.v evaluates it on observed states). *)
+From Sif Require Import Proofs.MarginReady.
+
+Theorem C13_close_keeps_ready : forall s signer id c' r,
+  SumInv s -> MReady s -> close_msg s signer id = (c', Ok r) ->
+  SumInv (c_s c') /\ MReady (c_s c') /\ gapN (c_s c') = gapN s /\ (forall a', a' <> ROWAN -> gapE (c_s c') a' = gapE s a').
+Proof. exact close_ready. Qed.
+Print Assumptions C13_close_keeps_ready.
+
+Theorem C13_admin_close_keeps_ready : forall s adm addr id tf c' r,
+  SumInv s -> MReady s -> admin_close_msg s adm addr id tf = (c', Ok r) ->
+  adm = true /\ SumInv (c_s c') /\ MReady (c_s c') /\ gapN (c_s c') = gapN s /\ (forall a', a' <> ROWAN -> gapE (c_s c') a' = gapE s a').
+Proof. exact admin_close_ready. Qed.
+Print Assumptions C13_admin_close_keeps_ready.
+
+Theorem C13_open_keeps_ready : forall s hl signer coll borrow amt lev c' u,
+  SumInv s -> MReady s -> signer <> CLP_MODULE -> 0 <= ms_count s -> find_mtp s signer (ms_count s + 1) = None ->
+  open_msg s hl signer coll borrow amt lev = (c', Ok u) ->
+  SumInv (c_s c') /\ MReady (c_s c') /\ gapN (c_s c') = gapN s /\ (forall a', a' <> ROWAN -> gapE (c_s c') a' = gapE s a').
+Proof. exact open_ready. Qed.
+Print Assumptions C13_open_keeps_ready.
+
+Theorem C13_history : forall es s s',
+  SumInv s -> MReady s -> mrun_ok s es -> mrun s es = Some s' ->
+  SumInv s' /\ MReady s' /\ gapN s' = gapN s /\ (forall a, a <> ROWAN -> gapE s' a = gapE s a).
+Proof. exact margin_history. Qed.
+Print Assumptions C13_history.
+
+(* non-vacuity: one open position (owner 12); account 13 opens a second one, 12 closes its own, a block passes, the
+   administrator closes the second one with the fund payment — the premises hold, the run ends without positions, and the
+   module account's gap is what it was (4000000 natively, 2998001 in the pool's token) *)
+Definition ex_hist_state : mstate :=
+  let m := mkMtp 0 1000 1000 0 0 0 1 1999 (2 * PREC) 0 in
+  let p := mkMPool 1000000 2000000 1000 0 0 1999 0 0 0 0 PREC 1 10 in
+  let ps := mkMParams (2 * PREC) (105 * PREC / 100) 1 false 0 21 0 20 [1] [] false 100 true (PREC / 200) 1 200 in
+  mkMState (mkBank [(1, [(0, 5000000); (1, 5000000)]); (13, [(0, 100000); (1, 100000)])] []) [(1, p)] [(12, [(1, m)])] 1 1 7 ps [] 0 [] 0.
+Definition ex_hist : list mstep :=
+  [SMsg 10 false (MOpen 13 0 1 5000 (2 * PREC)); SMsg 10 false (MClose 12 1); SBlock [(PREC, 1, 10)]; SMsg 10 false (MAdminClose true 20 13 2 true)].
+
+Example C13_history_example :
+  SumInv ex_hist_state /\ MReady ex_hist_state /\ mrun_ok ex_hist_state ex_hist /\
+  (match mrun ex_hist_state ex_hist with Some s' => Some (all_mtps s', ms_open s', gapN s', gapE s' 1) | None => None end) = Some ([], 0, 4000000, 2998001) /\
+  (gapN ex_hist_state, gapE ex_hist_state 1) = (4000000, 2998001).
+Proof.
+  assert (Hone : forall (P : Z -> Z -> mtp -> Prop),
+            P 12 1 (mkMtp 0 1000 1000 0 0 0 1 1999 (2 * PREC) 0) ->
+            forall addr id m0, find_mtp ex_hist_state addr id = Some m0 -> P addr id m0).
+  { intros P HP addr id m0 Hf. unfold find_mtp, mtps_of, ex_hist_state in Hf. cbn [ms_mtps get] in Hf.
+    destruct (Z.ltb_spec 12 addr); [discriminate Hf|]. destruct (Z.eqb_spec 12 addr) as [<-|]; [|discriminate Hf]. cbn [get] in Hf.
+    destruct (Z.ltb_spec 1 id); [discriminate Hf|]. destruct (Z.eqb_spec 1 id) as [<-|]; [|discriminate Hf]. injection Hf as <-. exact HP. }
+  assert (Hpool : forall (P : Z -> mpool -> Prop), P 1 (mkMPool 1000000 2000000 1000 0 0 1999 0 0 0 0 PREC 1 10) ->
+            forall a p0, get a (ms_pools ex_hist_state) = Some p0 -> P a p0).
+  { intros P HP a p0 Hg. unfold ex_hist_state in Hg. cbn [ms_pools get] in Hg. destruct (Z.ltb_spec 1 a); [discriminate Hg|].
+    destruct (Z.eqb_spec 1 a) as [<-|]; [|discriminate Hg]. injection Hg as <-. exact HP. }
+  split.
+  { split; [|vm_compute; reflexivity]. intros a p0 Hg Hr. revert a p0 Hg Hr. refine (Hpool (fun a p0 => a <> ROWAN -> pool_agrees ex_hist_state a p0) _).
+    intros _. vm_compute. repeat split; reflexivity. }
+  split.
+  { unfold MReady. split; [split; [exists 0; cbn; auto with zarith|constructor; [exists 0; cbn; auto with zarith|constructor]]|].
+    split; [unfold stored_nonneg; exact (Hone (fun _ _ m0 => 0 <= m_cust_amt m0) ltac:(vm_compute; discriminate))|].
+    split; [unfold stored_shape; refine (Hone (fun addr id m0 => id <> 0 /\ addr <> CLP_MODULE /\ shape m0) _); split; [discriminate|split; [vm_compute; discriminate|]];
+            unfold shape, on_pool; split; [vm_compute; discriminate|left; split; reflexivity]|].
+    split; [vm_compute; split; discriminate|]. split; [vm_compute; split; discriminate|].
+    split; [exists 0; cbn; auto with zarith|]. split.
+    + refine (Hpool (fun a p0 => a <> ROWAN /\ 0 <= q_nb p0 /\ 0 <= q_eb p0 /\ q_eb p0 + q_ec p0 <= bal (ms_bank ex_hist_state) CLP_MODULE a) _).
+      vm_compute. repeat split; discriminate.
+    + vm_compute. discriminate. }
+  split.
+  { cbn [mrun_ok ex_hist mstep_ok signer_of_margin]. split; [split; [vm_compute; discriminate|split; [vm_compute; discriminate|vm_compute; reflexivity]]|].
+    vm_compute. repeat split; discriminate. }
+  split; vm_compute; reflexivity.
+Qed.
